@@ -292,7 +292,7 @@ def _gen_idx(rng, E, n, what):
     """index set for a removal of `what` in {'v','c'}"""
     if n == 0:
         return [0]
-    style = rng.weighted([("subset", 40), ("first", 8), ("last", 8), ("allbutone", 7), ("nocell", 14 if what == "v" else 0),
+    style = rng.weighted([("subset", 44), ("first", 8), ("last", 8), ("allbutone", 4), ("nocell", 14 if what == "v" else 0),
                           ("negative", 9), ("oob", 5), ("empty", 3), ("all", 2), ("one", 4)])
     if style == "first":
         return [0]
@@ -316,7 +316,7 @@ def _gen_idx(rng, E, n, what):
         free = [i for i in range(n) if i not in used]
         if free:
             return rng.sample(free, rng.range(1, len(free)))
-    k = rng.range(1, max(1, n - 1))
+    k = rng.range(1, max(1, n - 1)) if rng.chance(25) else rng.range(1, max(1, min(3, n - 1)))
     idx = rng.sample(list(range(n)), k)
     if rng.chance(30):
         idx += [rng.choice(idx) for _ in range(rng.range(1, 2))]  # repeats
@@ -367,7 +367,7 @@ def _gen_case(rng):
         elif k == "copy":
             n, nc = len(E["verts"]), len(E["cells"])
             if arity and rng.chance(25):
-                op = {"op": "copy", "mask": None, "cmask": [int(rng.chance(65)) for _ in range(nc if not rng.chance(6) else nc + 1)]}
+                op = {"op": "copy", "mask": None, "cmask": [int(rng.chance(75)) for _ in range(nc if not rng.chance(6) else nc + 1)]}
             else:
                 st = rng.weighted([("rand", 78), ("all", 8), ("none", 5), ("shape", 6), ("plain", 3)])
                 if st == "plain":
@@ -379,7 +379,7 @@ def _gen_case(rng):
                 elif st == "shape":
                     m = [1] * (n + 1)
                 else:
-                    m = [int(rng.chance(70)) for _ in range(n)]
+                    m = [int(rng.chance(82)) for _ in range(n)]
                 op = {"op": "copy", "mask": m, "cmask": None}
         else:
             op = {"op": "reopen"}
